@@ -14,7 +14,7 @@ open(f,'w').write(s.replace(old,new))
 PY
 rc=$?
 if [ $rc -eq 0 ]; then
-  (cd /verif && tools/baseline.py $WT | head -3)
+  (cd /verif && BASELINE_SHOW=2 tools/baseline.py $WT)
   for id in $ID; do (cd /verif && VERIF_REPO=$WT ./run_check.py $id --tier ${TIER:-quick} 2>&1 | grep -E "VIOLATION|signature|INFRA|tier=" | head -${LINES_MAX:-8}); done
 fi
 git -C /repo worktree remove --force $WT
